@@ -28,9 +28,11 @@ def run(ctx):
     for s in streams:
         pf = 7 if rng.random() < 0.6 else rng.randrange(8)
         parsing = rng.random() < 0.85
+        val, mm, bfo = (1, 0, True) if rng.random() < 0.4 else (rng.randrange(2), rng.choice([0, 1, 2, 3, 3]), rng.random() < 0.5)
         for qe in (0, 1, 2):
             for handler in (True, False, "obj", "method"):
-                cases.append({"stream": s, "pf": pf, "qe": qe, "parsing": parsing, "handler": handler})
+                cases.append({"stream": s, "pf": pf, "qe": qe, "parsing": parsing, "handler": handler,
+                              "validate": val, "msgmode": mm, "bf": bfo})
     obs = rp.correspond_runs(ctx, cases, "READ")
     by = {}
     for c, o in zip(cases, obs):
